@@ -154,7 +154,7 @@ Section Sound.
     end.
   Proof.
     induction fuelx as [|fuelx IH]; intros st s oracle S r Hh Hi Hc; cbn [exec]; auto.
-    destruct st as [| s1 s2 | x a | cs x g args | d x | c s1 s2 | c body | a | x ik j | cs d x xi ik m args | a er | cs x xe g args]; cbn in Hh, Hi.
+    destruct st as [| s1 s2 | x a | cs x g args | d x | c s1 s2 | c body | a | x ik j | cs d x xi ik m args | a er | cs x xe g args | cs g args]; cbn in Hh, Hi.
     - inversion Hh; subst. exact Hc.
     - destruct (hreach vars hf s1 S) as [r1|] eqn:E1; [|discriminate].
       destruct (hreach vars hf s2 (h_norm r1)) as [r2|] eqn:E2; [|discriminate]. inversion Hh; subst. cbn.
@@ -299,6 +299,11 @@ Section Sound.
         * apply (E s y). apply (E _ ye). exact Hsw.
         * apply (E s ye). exact Hsw.
         * apply (E s y). exact Hsw.
+    - (* return g(args): the state is covered, so the abstract state set is not empty *)
+      inversion Hh; subst. cbn. destruct Hc as [a0 [Ha Hs]].
+      assert (Hne : match S with [] => false | _ => true end = true) by (destruct S; [destruct Ha|reflexivity]).
+      destruct (nth_error (p_funcs prog) g) as [fd|]; auto.
+      destruct (exec prog fuelx (f_body fd) (bind_params 0 (map (eval_atom s) args) ++ globals_of s) oracle) as [s' o'|v s' o'|d|]; auto.
   Qed.
 End Sound.
 
